@@ -1,15 +1,24 @@
+//! Checks on p2panda-encryption (C34 … C38).
 use explorer::{Args, Report};
+
+mod clock;
+mod scratch;
 
 fn main() {
     let args = Args::parse();
     explorer::quiet_panics();
+    // Seam S3 must work for every check of this binary (C36/C38 drive it, C35 depends on it for
+    // deterministic secret timestamps); a broken seam is a machinery error, never a verdict.
+    if let Err(e) = clock::self_test() {
+        eprintln!("MACHINERY-ERROR property={} wall-clock seam S3 self-test failed: {e}", args.property);
+        std::process::exit(2);
+    }
     let code = match args.property.as_str() {
-        // "Cxx" => cxx::run(Report::new(&args, "model_checking")),
+        "X00" => scratch::run(Report::new(&args, "model_checking")),
         other => {
             eprintln!("vh-enc: unknown property {other}");
             2
         }
     };
-    let _ = Report::new(&args, "model_checking");
     std::process::exit(code);
 }
